@@ -565,8 +565,8 @@ class Expander:
             if inserts and not d.startswith("//@"):
                 inserts[-1][1].append(d)
                 continue
-            if d.startswith("//@before "):
-                inserts.append((d.split(None, 1)[1], [], d_line))
+            if d.startswith("//@before ") or d.startswith("//@after ") or d.startswith("//@loop-inv "):
+                inserts.append((d.split(None, 1)[1], [], d_line, d.split(None, 1)[0][3:]))
             elif d.startswith("//@from-re "):
                 frm = d.split(None, 1)[1]
             elif d.startswith("//@through-block-re "):
@@ -617,11 +617,21 @@ class Expander:
             text = text.replace(a, b)
             self.records["rewrites"].append(f"{relpath}:{name} (fragment): `{a}` -> `{b}`")
         out_lines = [(ln, ("repo", src.label, first_line + k2)) for k2, ln in enumerate(text.split("\n"))]
-        for anchor, payload, d_line in inserts:
+        for anchor, payload, d_line, how in inserts:
             hits = [k2 for k2, (ln, _) in enumerate(out_lines) if anchor in ln and _[0] == "repo"]
             if len(hits) != 1:
                 raise ExtractError(f"{src.label}:{name}: fragment proof anchor occurs {len(hits)} times: {anchor!r}")
-            out_lines[hits[0]:hits[0]] = [(pl, ("tmpl", self.unit, d_line + 1 + k3)) for k3, pl in enumerate(payload)]
+            pl_lines = [(pl, ("tmpl", self.unit, d_line + 1 + k3)) for k3, pl in enumerate(payload)]
+            h = hits[0]
+            if how == "before":
+                out_lines[h:h] = pl_lines
+            elif how == "after":
+                out_lines[h + 1:h + 1] = pl_lines
+            else:   # loop-inv: the anchor line is a loop header ending in `{`; the payload goes between header and brace
+                ln, org = out_lines[h]
+                if not ln.rstrip().endswith("{"):
+                    raise ExtractError(f"{src.label}:{name}: fragment loop anchor line does not end in `{{`: {ln.strip()!r}")
+                out_lines[h:h + 1] = [(ln.rstrip()[:-1], org)] + pl_lines + [("{", org)]
         self.out.extend(out_lines)
         self.records["takes"].append({"kind": "fragment", "file": relpath, "name": name, "lines": [first_line, first_line + text.count("\n")]})
         self.records["abstractions"].append(f"{relpath}:{name}: only the statement run lines {first_line}-{first_line + text.count(chr(10))} is verified (verbatim), inside a receiver written in the unit template; the rest of the function is outside this unit")
